@@ -2,7 +2,7 @@
    Only final statements; every proof is one [exact].  The model is symbolic in the
    cryptography and concrete in the control flow of src/cms.c (see Pki/Cms.v). *)
 From Coq Require Import NArith List Bool.
-From GmVerif Require Import Pki.Cms Pki.CmsProofs Pki.X509Codec Pki.X509CodecProofs.
+From GmVerif Require Import Pki.Cms Pki.CmsProofs Pki.X509Codec Pki.X509CodecProofs Pki.CmsCodec Pki.CmsCodecProofs.
 Import ListNotations.
 Open Scope N_scope.
 
@@ -98,3 +98,73 @@ Theorem C16_prefix_serial_is_skipped : forall A (l : list (keyed A)) issuer seri
   find_by_issuer_serial (Some (issuer, serial, x) :: l) issuer (serial ++ extra) = find_by_issuer_serial l issuer (serial ++ extra).
 Proof. exact prefix_serial_is_skipped. Qed.
 Print Assumptions C16_prefix_serial_is_skipped.
+
+(* ---- the DER layer of the messages (Pki/CmsCodec.v): what the low-level writers cms_*_to_der emit is a
+   SEQUENCE over positional fields, and each structure reads back field by field through the layout its
+   reader walks.  The byte-level models are compared with the library on every run (op cmsenc); the
+   readers' own models and their memory-safety theorems are C06/C14's (Codec/Cms.v). *)
+Theorem C16_der_issuer_and_serial_roundtrip : forall issuer serial e,
+  serial <> [] ->
+  ias_to_der (Some issuer) (Some serial) = Some e -> len e < 2147483648 ->
+  struct_from_der ias_layout e = Some [Some (T_SEQ, issuer); Some (T_INT, integer_content serial)].
+Proof. exact ias_roundtrip. Qed.
+Print Assumptions C16_der_issuer_and_serial_roundtrip.
+
+Theorem C16_der_signer_info_roundtrip : forall issuer serial iasc da authed sa sig unauthed e,
+  ias_to_der issuer serial = Some (tlv T_SEQ iasc) ->
+  signer_info_to_der 1 issuer serial (Some (tlv T_SEQ da)) authed (Some (tlv T_SEQ sa)) (Some sig) unauthed = Some e ->
+  len e < 2147483648 ->
+  struct_from_der signer_info_layout e =
+    Some [Some (T_INT, [1]); Some (T_SEQ, iasc); Some (T_SEQ, da); opt_value (T_CTX 0) authed;
+          Some (T_SEQ, sa); Some (T_OCT, sig); opt_value (T_CTX 1) unauthed].
+Proof. exact signer_info_roundtrip. Qed.
+Print Assumptions C16_der_signer_info_roundtrip.
+
+Theorem C16_der_recipient_info_roundtrip : forall issuer serial iasc pa ek e,
+  ias_to_der issuer serial = Some (tlv T_SEQ iasc) ->
+  recipient_info_to_der 1 issuer serial (Some (tlv T_SEQ pa)) (Some ek) = Some e ->
+  len e < 2147483648 ->
+  struct_from_der recipient_info_layout e =
+    Some [Some (T_INT, [1]); Some (T_SEQ, iasc); Some (T_SEQ, pa); Some (T_OCT, ek)].
+Proof. exact recipient_info_roundtrip. Qed.
+Print Assumptions C16_der_recipient_info_roundtrip.
+
+Theorem C16_der_signed_data_roundtrip : forall dalgs dc cic certs crls sis e,
+  digest_algors_to_der dalgs = Some (tlv T_SET dc) -> sis <> [] ->
+  signed_data_to_der 1 dalgs (Some (tlv T_SEQ cic)) certs crls (Some sis) = Some e ->
+  len e < 2147483648 ->
+  struct_from_der signed_data_layout e =
+    Some [Some (T_INT, [1]); Some (T_SET, dc); Some (T_SEQ, cic); opt_value (T_CTX 0) certs;
+          opt_value (T_CTX 1) crls; Some (T_SET, sis)].
+Proof. exact signed_data_roundtrip. Qed.
+Print Assumptions C16_der_signed_data_roundtrip.
+
+Theorem C16_der_enveloped_data_roundtrip : forall ris ecic e,
+  ris <> [] ->
+  enveloped_data_to_der 1 (Some ris) (Some (tlv T_SEQ ecic)) = Some e -> len e < 2147483648 ->
+  struct_from_der enveloped_data_layout e = Some [Some (T_INT, [1]); Some (T_SET, ris); Some (T_SEQ, ecic)].
+Proof. exact enveloped_data_roundtrip. Qed.
+Print Assumptions C16_der_enveloped_data_roundtrip.
+
+Theorem C16_der_signed_and_enveloped_data_roundtrip : forall ris dalgs dc ecic certs crls sis e,
+  ris <> [] -> sis <> [] -> digest_algors_to_der dalgs = Some (tlv T_SET dc) ->
+  signed_and_enveloped_data_to_der 1 (Some ris) dalgs (Some (tlv T_SEQ ecic)) certs crls (Some sis) = Some e ->
+  len e < 2147483648 ->
+  struct_from_der signed_and_enveloped_data_layout e =
+    Some [Some (T_INT, [1]); Some (T_SET, ris); Some (T_SET, dc); Some (T_SEQ, ecic);
+          opt_value (T_CTX 0) certs; opt_value (T_CTX 1) crls; Some (T_SET, sis)].
+Proof. exact signed_and_enveloped_data_roundtrip. Qed.
+Print Assumptions C16_der_signed_and_enveloped_data_roundtrip.
+
+(* the writers refuse what no reader could hand back: a missing or empty SET of signer / recipient infos,
+   a missing issuer or serial number, another SignerInfo / RecipientInfo version *)
+Theorem C16_der_writers_refuse : forall issuer serial dalgs ci certs crls eci v da au sa sg un pa ek,
+  signed_data_to_der v dalgs ci certs crls None = None /\
+  signed_data_to_der v dalgs ci certs crls (Some []) = None /\
+  enveloped_data_to_der v None eci = None /\
+  enveloped_data_to_der v (Some []) eci = None /\
+  ias_to_der None serial = None /\ ias_to_der issuer None = None /\ ias_to_der issuer (Some []) = None /\
+  (v <> 1 -> signer_info_to_der v issuer serial da au sa sg un = None) /\
+  (v <> 1 -> recipient_info_to_der v issuer serial pa ek = None).
+Proof. exact encoders_refuse. Qed.
+Print Assumptions C16_der_writers_refuse.
